@@ -1470,19 +1470,14 @@ theorem derivs_same_selection (n : Nat) (rest : Shape) (m : Mask) (ms : List Mas
     | none => rfl
     | some rs => rfl
 
-/-- FULL (what the property demands of a shapeless object as well): every derivative of the result is
-    masked iff the derivative is masked or the Boolean in the index is masked.
-
-    **derivs_shapeless_partial.**  For a shapeless object this holds unless the object itself is
-    already masked: the result's main part is that of `getitemScalar`, and when the object is not
-    masked (or the index has no masked Boolean) each derivative's single element is masked iff the
-    derivative is masked or the index is. -/
-theorem derivs_shapeless_partial (mask : Bool) (dmasks : List Bool) (indx : List Entry) (rs : List Result)
+/-- **derivs_shapeless.**  For a shapeless object the result's main part is that of `getitemScalar`,
+    and every derivative comes back with the same shape and with its single element masked iff the
+    derivative is masked or the Boolean in the index is masked — whatever the object's own mask. -/
+theorem derivs_shapeless (mask : Bool) (dmasks : List Bool) (indx : List Entry) (rs : List Result)
     (h : getitemScalarObj mask dmasks indx = some rs) :
     (∃ r0 tl, rs = r0 :: tl ∧ getitemScalar mask indx = some r0 ∧ tl.length = dmasks.length) ∧
-    ((mask = false ∨ scalarMasked indx = false) →
-      rs.tail.map (fun r => (r.shape, r.mask.bit [])) =
-        dmasks.map (fun d => (scalarDims indx, d || scalarMasked indx))) := by
+    rs.tail.map (fun r => (r.shape, r.mask.bit [])) =
+      dmasks.map (fun d => (scalarDims indx, d || scalarMasked indx)) := by
   have hinv : ({} : SState).Inv := ⟨fun _ => rfl, fun h => by simp at h, fun _ => rfl⟩
   obtain ⟨_, h2⟩ := scalarLoop_spec indx {} hinv
   unfold getitemScalarObj at h
@@ -1495,31 +1490,24 @@ theorem derivs_shapeless_partial (mask : Bool) (dmasks : List Bool) (indx : List
     have hd : s.masked = scalarMasked indx := by simpa using d
     have hc : s.before ++ s.after = scalarDims indx := by simpa using c
     refine ⟨⟨_, _, rfl, by simp [getitemScalar, hl], by simp⟩, ?_⟩
-    intro hm
     simp only [List.tail_cons, List.map_map, hc]
+    rw [List.map_inj_left]
+    intro dd _
     cases hz : s.sizeZero with
     | true =>
-      -- a `False` in the index: the result has an axis of length 0
-      rw [List.map_inj_left]
-      intro dd _
+      -- a `False` in the index: it is the only boolean, so no masked Boolean
       have : s.masked = false := by
         cases hmm : s.masked with
         | false => rfl
         | true => have := i2 hmm; simp [hz] at this
       simp [Function.comp, Mask.bit, ← hd, this]
     | false =>
-      rw [List.map_inj_left]
-      intro dd _
-      rcases hm with hm | hm
-      · subst hm; cases hs : s.masked <;> simp [Function.comp, Mask.bit, ← hd, hs]
-      · have : s.masked = false := by rw [hd]; exact hm
-        simp [Function.comp, Mask.bit, ← hd, this]
+      cases hs : s.masked <;> simp [Function.comp, Mask.bit, ← hd, hs]
 
-/-- KF-C09-2: an already masked shapeless object indexed by a masked Boolean hands back its
-    derivative UNMASKED (the faithful model, as the code) -/
-theorem derivs_shapeless_counterexample :
-    (getitemObj [] [.all true, .all false] [.bool true true]).map (fun rs => rs.map (·.mask.bit [])) =
-      some [true, false] := by rfl
+/-- the former finding KF-C09-2 (repaired, 33685c7): an already masked shapeless object indexed by a
+    masked Boolean hands back its derivative masked -/
+example : (getitemObj [] [.all true, .all false] [.bool true true]).map (fun rs => rs.map (·.mask.bit [])) =
+    some [true, true] := by rfl
 
 /-- the selection (result shape) of `getitemShaped` does not depend on the object's mask: an object
     and its derivatives get results of one shape, read through one source map -/
